@@ -112,11 +112,15 @@ def run_tlc_with_files(module_dir, module, cfg, files, **kw):
     cmd = ["timeout", str(timeout), "tlc", "-workers", str(kw.get("workers", 1)), "-metadir", os.path.join(work, "meta"),
            "-config", cfg, *kw.get("extra", ()), module + ".tla"]
     t0 = time.time()
+    # the JVM would otherwise size its heap to a quarter of the machine for every one of the parallel runs
+    env = dict(os.environ, JAVA_TOOL_OPTIONS=f"-Xmx{kw.get('heap', '2500m')} -Xss256m")
     with open(out, "w") as fh:
-        p = subprocess.run(cmd, cwd=work, stdout=fh, stderr=subprocess.STDOUT)
+        p = subprocess.run(cmd, cwd=work, stdout=fh, stderr=subprocess.STDOUT, env=env)
     if p.returncode == 124:
         raise Infra(f"TLC timed out after {timeout}s on {module}")
     text_tail = _tail(out, 20000)
+    if "OutOfMemoryError" in text_tail:
+        raise Infra(f"TLC ran out of memory on {module}")
     m = None
     for m in _TLC_STATS.finditer(text_tail):
         pass
